@@ -1,7 +1,9 @@
 import Mathlib.Tactic.Ring
 import Mathlib.Tactic.Positivity
 import Mathlib.Tactic.Linarith
+import Mathlib.Tactic.NormNum
 import Mathlib.Algebra.Order.Ring.Int
+import NdonnxVerif.Model.IntArith
 /-!
 # C02 — element-wise functions return the specified values (integer part)
 
@@ -13,15 +15,6 @@ homomorphism of two's-complement wrap), and fix the floor / sign conventions of 
 kernels are opaque to Lean and are validated numerically by the check.
 -/
 namespace Ndx.C02
-
-/-- Two's-complement wrap of an integer into `bits` bits, unsigned representative. -/
-def wrapU (bits : Nat) (v : Int) : Int := v % (2 ^ bits : Int)
-
-/-- Signed representative. -/
-def wrapS (bits : Nat) (v : Int) : Int :=
-  let m : Int := 2 ^ bits
-  let u := v % m
-  if u ≥ m / 2 then u - m else u
 
 theorem two_pow_pos (bits : Nat) : (0 : Int) < 2 ^ bits := by positivity
 
@@ -93,15 +86,257 @@ theorem remainder_sign_of_divisor_pos (a b : Int) (hb : 0 < b) : 0 ≤ a.fmod b 
 when the operands have opposite signs and the division is inexact. -/
 theorem tmod_ne_fmod_witness : Int.tmod (-7) 2 ≠ Int.fmod (-7) 2 := by decide
 
-/-- Correction that turns a truncating remainder into the standard's: add the divisor when the
-truncating remainder is non-zero and its sign differs from the divisor's. -/
-def fmodOfTmod (a b : Int) : Int :=
-  let r := Int.tmod a b
-  if r ≠ 0 ∧ ((r < 0) ≠ (b < 0)) then r + b else r
-
 theorem fmodOfTmod_examples :
     fmodOfTmod (-7) 2 = Int.fmod (-7) 2 ∧ fmodOfTmod 7 (-2) = Int.fmod 7 (-2) ∧
     fmodOfTmod 7 2 = Int.fmod 7 2 ∧ fmodOfTmod (-7) (-2) = Int.fmod (-7) (-2) ∧ fmodOfTmod 6 (-2) = Int.fmod 6 (-2) := by
   decide
 
+
+/-! ## the implementation's integer algorithms, for all inputs -/
+
+theorem tmod_nonpos' (a b : Int) (ha : a ≤ 0) : a.tmod b ≤ 0 := by
+  have h := Int.tmod_nonneg b (show 0 ≤ -a by omega)
+  rw [Int.neg_tmod] at h; omega
+
+/-- **The implementation's `remainder` algorithm is the standard's remainder, for all integers**:
+`Mod(fmod=1)` followed by the sign correction of `_numericimpl.remainder` equals `Int.fmod`. -/
+theorem fmodOfTmod_eq_fmod (a b : Int) : fmodOfTmod a b = Int.fmod a b := by
+  unfold fmodOfTmod
+  rw [Int.fmod_eq_tmod]
+  by_cases hd : b ∣ a
+  · have h0 : a.tmod b = 0 := Int.tmod_eq_zero_of_dvd hd
+    simp [h0, hd]
+  · have hne : a.tmod b ≠ 0 := fun h => hd (Int.dvd_of_tmod_eq_zero h)
+    simp only [hd, if_false]
+    by_cases ha : 0 ≤ a
+    · have hr : 0 ≤ a.tmod b := Int.tmod_nonneg b ha
+      by_cases hb : 0 ≤ b
+      · have : ¬ (a.tmod b < 0) := by omega
+        have : ¬ (b < 0) := by omega
+        simp [*]
+      · have : ¬ (a.tmod b < 0) := by omega
+        have : (b < 0) := by omega
+        simp [*]
+    · have hr : a.tmod b ≤ 0 := tmod_nonpos' a b (by omega)
+      have hlt : a.tmod b < 0 := by omega
+      by_cases hb : 0 ≤ b
+      · have : ¬ (b < 0) := by omega
+        have hnat : (b.natAbs : Int) = b := Int.natAbs_of_nonneg hb
+        rw [if_neg ha, if_pos hb, hnat, if_pos ⟨hne, by simp [*]⟩]
+      · have : (b < 0) := by omega
+        have hz : b.toNat = 0 := Int.toNat_of_nonpos (by omega)
+        rw [if_neg ha, if_neg hb, hz, if_neg (by simp [*])]; simp
+
+/-- The standard's remainder lies strictly between 0 and the divisor (sign of the divisor). -/
+theorem fmod_bounds (a b : Int) (hb : b ≠ 0) :
+    (0 < b → 0 ≤ a.fmod b ∧ a.fmod b < b) ∧ (b < 0 → b < a.fmod b ∧ a.fmod b ≤ 0) := by
+  constructor
+  · intro h; exact remainder_sign_of_divisor_pos a b h
+  · intro h
+    rw [Int.fmod_eq_emod]
+    have hnn : ¬ (0 ≤ b) := by omega
+    have h1 := Int.emod_nonneg a hb
+    have h2 : a % b < -b := by
+      have := Int.emod_lt_of_pos a (show 0 < -b by omega)
+      rwa [Int.emod_neg] at this
+    by_cases hd : b ∣ a
+    · have : a % b = 0 := Int.emod_eq_zero_of_dvd hd
+      simp [hd, this]; omega
+    · have : a % b ≠ 0 := fun h => hd (Int.dvd_of_emod_eq_zero h)
+      simp [hnn, hd]; omega
+
+/-- For every width and all in-range operands with a non-zero divisor the graph's result is exactly
+the standard's remainder: the wrapped addition never overflows. -/
+theorem remainderImpl_correct (bits : Nat) (hbits : 1 ≤ bits) (a b : Int) (hb0 : b ≠ 0)
+    (hblo : -(2 ^ (bits - 1) : Int) ≤ b) (hbhi : b < 2 ^ (bits - 1)) :
+    remainderImpl bits a b = Int.fmod a b := by
+  have key := fmodOfTmod_eq_fmod a b
+  unfold fmodOfTmod at key
+  unfold remainderImpl
+  simp only at key ⊢
+  split
+  · rename_i h
+    rw [if_pos h] at key
+    rw [key]
+    have hbd := fmod_bounds a b hb0
+    apply wrapS_id bits hbits
+    · rcases Int.lt_or_gt_of_ne hb0 with hneg | hpos
+      · have := hbd.2 hneg; omega
+      · have := hbd.1 hpos
+        have : (0:Int) < 2 ^ (bits - 1) := by positivity
+        omega
+    · rcases Int.lt_or_gt_of_ne hb0 with hneg | hpos
+      · have := hbd.2 hneg
+        have : (0:Int) < 2 ^ (bits - 1) := by positivity
+        omega
+      · have := hbd.1 hpos; omega
+  · rename_i h
+    rw [if_neg h] at key
+    exact key
+
+/-- A "simplified" correction test that multiplies remainder and divisor *in the dtype* is wrong:
+the product wraps (int8: 100 % -120). This is why the implementation compares signs instead. -/
+theorem product_test_is_wrong : remainderProductTest 8 100 (-120) ≠ Int.fmod 100 (-120) := by decide
+
+/-- Left shift routed through `uint64` and cast back equals the shift in the operand's own width. -/
+theorem left_shift_via_uint64 (bits : Nat) (h : bits ≤ 64) (x : Int) (s : Nat) :
+    wrapU bits (wrapU 64 (wrapU 64 x * 2 ^ s)) = wrapU bits (x * 2 ^ s) := by
+  rw [wrapU_wrapU bits 64 h]
+  have h1 := wrapU_mul bits (wrapU 64 x) (2 ^ s)
+  have h2 := wrapU_mul bits x (2 ^ s)
+  rw [← h1, ← h2, wrapU_wrapU bits 64 h]
+
+theorem wrapS_add_mul (bits : Nat) (v k : Int) : wrapS bits (v + k * 2 ^ bits) = wrapS bits v := by
+  simp only [wrapS, Int.add_mul_emod_self_right]
+
+/-- Floor division by a positive power of two keeps a value inside a symmetric signed range. -/
+theorem ediv_pow_bounds (M x : Int) (s : Nat) (hM : 0 < M) (hlo : -M ≤ x) (hhi : x < M) :
+    -M ≤ x / 2 ^ s ∧ x / 2 ^ s < M := by
+  have hp : (0 : Int) < 2 ^ s := by positivity
+  have h1 : (1 : Int) ≤ 2 ^ s := by omega
+  have hmul := Int.mul_ediv_add_emod x (2 ^ s)
+  have hr0 := Int.emod_nonneg x (Int.ne_of_gt hp)
+  have hr1 := Int.emod_lt_of_pos x hp
+  constructor
+  · by_contra hc
+    have hq : x / 2 ^ s + 1 ≤ -M := by omega
+    have : (x / 2 ^ s + 1) * 2 ^ s ≤ -M * 2 ^ s := Int.mul_le_mul_of_nonneg_right hq (by omega)
+    nlinarith
+  · by_contra hc
+    have hq : M ≤ x / 2 ^ s := by omega
+    have : M * 2 ^ s ≤ (x / 2 ^ s) * 2 ^ s := Int.mul_le_mul_of_nonneg_right hq (by omega)
+    nlinarith
+
+/-- Right shift of a *signed* value routed through `uint64` and cast back is the arithmetic shift
+(floor division by `2^s`) as long as `bits + s ≤ 64`. For `int64` (`bits = 64`, `s ≥ 1`) the
+hypothesis fails — and so does the implementation (recorded finding). -/
+theorem right_shift_via_uint64 (bits s : Nat) (hb : 1 ≤ bits) (h : bits + s ≤ 64) (x : Int)
+    (hlo : -(2 ^ (bits - 1) : Int) ≤ x) (hhi : x < 2 ^ (bits - 1)) :
+    wrapS bits (wrapU 64 x / 2 ^ s) = x / 2 ^ s := by
+  have hM : (0 : Int) < 2 ^ (bits - 1) := by positivity
+  have hbd := ediv_pow_bounds (2 ^ (bits - 1)) x s hM hlo hhi
+  have hle : (2 : Int) ^ (bits - 1) ≤ 2 ^ 63 := pow_le_pow_right₀ (by norm_num) (by omega)
+  rcases lt_or_ge x 0 with hneg | hpos
+  · have hw : wrapU 64 x = x + 2 ^ 64 := by
+      unfold wrapU
+      have : (x + 2 ^ 64) % (2 ^ 64 : Int) = x + 2 ^ 64 := Int.emod_eq_of_lt (by omega) (by omega)
+      rw [← this, Int.add_emod_right]
+    have hsplit : (2 : Int) ^ 64 = 2 ^ (64 - s) * 2 ^ s := by
+      rw [← pow_add]; congr 1; omega
+    have hsplit2 : (2 : Int) ^ (64 - s) = 2 ^ (64 - s - bits) * 2 ^ bits := by
+      rw [← pow_add]; congr 1; omega
+    rw [hw, hsplit, Int.add_mul_ediv_right _ _ (by positivity), hsplit2, wrapS_add_mul]
+    exact wrapS_id bits hb _ hbd.1 hbd.2
+  · have hw : wrapU 64 x = x := by
+      unfold wrapU; exact Int.emod_eq_of_lt hpos (by omega)
+    rw [hw]
+    exact wrapS_id bits hb _ hbd.1 hbd.2
+
+/-- The excluded case really fails: `int64`, `-8 >> 1` through `uint64` gives `2^63 - 4`, not `-4`. -/
+theorem right_shift_int64_witness : wrapS 64 (wrapU 64 (-8) / 2 ^ 1) ≠ (-8) / 2 ^ 1 := by decide
+
+/-! ## implementation model = specification -/
+
+
+theorem wrapS_congr_of_wrapU (bits : Nat) (v w : Int) (h : wrapU bits v = wrapU bits w) :
+    wrapS bits v = wrapS bits w := by
+  simp only [wrapU] at h
+  simp only [wrapS, h]
+
+theorem wrap_congr_of_wrapU (t : IType) (v w : Int) (h : wrapU t.bits v = wrapU t.bits w) :
+    t.wrap v = t.wrap w := by
+  unfold IType.wrap
+  split
+  · exact wrapS_congr_of_wrapU _ _ _ h
+  · exact h
+
+theorem wrapU_id (bits : Nat) (v : Int) (h0 : 0 ≤ v) (h1 : v < 2 ^ bits) : wrapU bits v = v :=
+  Int.emod_eq_of_lt h0 h1
+
+theorem lshiftImpl_eq_spec (t : IType) (hb : t.bits ≤ 64) (x : Int) (s : Nat) :
+    lshiftImpl t x s = t.wrap (x * 2 ^ s) :=
+  wrap_congr_of_wrapU t _ _ (left_shift_via_uint64 t.bits hb x s)
+
+theorem rshiftImpl_unsigned (t : IType) (hu : t.signed = false) (hb : t.bits ≤ 64) (x : Int) (s : Nat)
+    (h0 : 0 ≤ x) (h1 : x < 2 ^ t.bits) : rshiftImpl t x s = x / 2 ^ s := by
+  have hle : (2 : Int) ^ t.bits ≤ 2 ^ 64 := pow_le_pow_right₀ (by norm_num) hb
+  have hp : (0 : Int) < 2 ^ s := by positivity
+  unfold rshiftImpl IType.wrap
+  rw [hu, wrapU_id 64 x h0 (by omega)]
+  simp only [Bool.false_eq_true, if_false]
+  apply wrapU_id
+  · exact Int.ediv_nonneg h0 (by omega)
+  · have : x / 2 ^ s ≤ x := Int.ediv_le_self _ h0
+    omega
+
+theorem rshiftImpl_signed (t : IType) (hs : t.signed = true) (hb1 : 1 ≤ t.bits) (x : Int) (s : Nat)
+    (h : t.bits + s ≤ 64) (hlo : -(2 ^ (t.bits - 1) : Int) ≤ x) (hhi : x < 2 ^ (t.bits - 1)) :
+    rshiftImpl t x s = x / 2 ^ s := by
+  unfold rshiftImpl IType.wrap
+  rw [hs]; simp only [if_true]
+  exact right_shift_via_uint64 t.bits s hb1 h x hlo hhi
+
+/-- Non-negative values shift correctly in every signed width up to 64 (the `int64` defect needs a
+negative operand). -/
+theorem rshiftImpl_signed_nonneg (t : IType) (hs : t.signed = true) (hb1 : 1 ≤ t.bits) (hb : t.bits ≤ 64)
+    (x : Int) (s : Nat) (h0 : 0 ≤ x) (hhi : x < 2 ^ (t.bits - 1)) : rshiftImpl t x s = x / 2 ^ s := by
+  have hle : (2 : Int) ^ (t.bits - 1) ≤ 2 ^ 63 := pow_le_pow_right₀ (by norm_num) (by omega)
+  have hp : (0 : Int) < 2 ^ s := by positivity
+  unfold rshiftImpl IType.wrap
+  rw [hs, wrapU_id 64 x h0 (by omega)]; simp only [if_true]
+  apply wrapS_id t.bits hb1
+  · have := Int.ediv_nonneg h0 (show (0:Int) ≤ 2 ^ s by omega)
+    have : (0 : Int) < 2 ^ (t.bits - 1) := by positivity
+    omega
+  · have : x / 2 ^ s ≤ x := Int.ediv_le_self _ h0
+    omega
+
+theorem remainder_unsigned (a b : Int) (ha : 0 ≤ a) (hb : 0 ≤ b) : Int.tmod a b = Int.fmod a b := by
+  rw [Int.tmod_eq_emod_of_nonneg ha, Int.fmod_eq_emod_of_nonneg a hb]
+
+/-- **Implementation model = specification** for the integer binary functions whose graphs are more
+than a single node, on the whole domain of every width up to 64 bits — except the arithmetic right
+shift of a negative `int64`, the recorded finding. -/
+theorem intOpImpl_eq_spec (op : String) (t : IType) (hb1 : 1 ≤ t.bits) (hb : t.bits ≤ 64) (a b : Int)
+    (ha : t.inRange a = true) (hbr : t.inRange b = true)
+    (hop : op ∈ ["add", "subtract", "multiply", "remainder", "bitwise_left_shift", "bitwise_right_shift"])
+    (hrs : op = "bitwise_right_shift" → t.signed = true → t.bits ≤ 32 ∨ 0 ≤ a) :
+    intOpImpl op t a b = intOpSpec op t a b := by
+  simp only [List.mem_cons, List.not_mem_nil, or_false] at hop
+  rcases hop with rfl | rfl | rfl | rfl | rfl | rfl
+  · rfl
+  · rfl
+  · rfl
+  · simp only [intOpImpl, intOpSpec]
+    split
+    · rfl
+    · rename_i hb0
+      congr 1
+      cases hsg : t.signed
+      · simp only [Bool.false_eq_true, if_false]
+        simp only [IType.inRange, hsg, Bool.false_eq_true, if_false, decide_eq_true_eq] at ha hbr
+        exact remainder_unsigned a b ha.1 hbr.1
+      · simp only [if_true]
+        simp only [IType.inRange, hsg, if_true, decide_eq_true_eq] at hbr
+        exact remainderImpl_correct t.bits hb1 a b hb0 hbr.1 hbr.2
+  · simp only [intOpImpl, intOpSpec]
+    split
+    · rw [lshiftImpl_eq_spec t hb]
+    · rfl
+  · simp only [intOpImpl, intOpSpec]
+    split
+    · rename_i hs
+      congr 1
+      cases hsg : t.signed
+      · simp only [IType.inRange, hsg, Bool.false_eq_true, if_false, decide_eq_true_eq] at ha
+        exact rshiftImpl_unsigned t hsg hb a _ ha.1 ha.2
+      · simp only [IType.inRange, hsg, if_true, decide_eq_true_eq] at ha
+        rcases hrs rfl hsg with h32 | hnn
+        · have : b.toNat < t.bits := by omega
+          exact rshiftImpl_signed t hsg hb1 a _ (by omega) ha.1 ha.2
+        · exact rshiftImpl_signed_nonneg t hsg hb1 hb a _ hnn ha.2
+    · rfl
+
+example : intOpImpl "remainder" ⟨8, true⟩ 100 (-120) = some (-20) := by decide
+example : intOpImpl "bitwise_right_shift" ⟨8, true⟩ (-128) 3 = some (-16) := by decide
 end Ndx.C02
